@@ -122,14 +122,14 @@ func runFixed(cfg hx.Config, meta *hx.Meta) {
 		for si, v := range vers {
 			sdir := filepath.Join(cfg.Work, fmt.Sprintf("fixed-%s-scratch", name))
 			write(sdir, v, nil, false)
-			gs := hx.Goderive(cfg.Goderive, sdir, args...)
+			gs := goderiveRun(cfg, sdir, args...)
 			sb, sex := read(sdir)
 			meta.CountSafe("fixed/" + name)
 			if gs.Exit != 0 {
 				report("c07-fixed-scratch-fails", fmt.Sprintf("version %d: goderive fails from scratch", si), v, nil, false, nil, nil, gs.Out)
 				return
 			}
-			if vet := hx.GoVet(sdir, ""); vet.Exit != 0 {
+			if vet := vetRun(sdir, ""); vet.Exit != 0 {
 				report("c07-vet-fails", fmt.Sprintf("version %d: the from-scratch result does not type-check (goderive exit 0)", si), v, nil, false, sb, sb, vet.Out)
 			}
 			// old states: the previous version's output, and remnants of it cut at a few offsets
@@ -148,13 +148,13 @@ func runFixed(cfg hx.Config, meta *hx.Meta) {
 			for oi, o := range olds {
 				dir := filepath.Join(cfg.Work, fmt.Sprintf("fixed-%s-%d", name, oi))
 				write(dir, v, o.b, o.ex)
-				g := hx.Goderive(cfg.Goderive, dir, args...)
+				g := goderiveRun(cfg, dir, args...)
 				ab, aex := read(dir)
 				if g.Exit != 0 || aex != sex || !bytes.Equal(ab, sb) {
 					report("c07-differs-from-scratch", fmt.Sprintf("version %d, old state %d: one run over the old derived.gen.go does not leave the from-scratch result (exit %d, file exists %v, from scratch %v)", si, oi, g.Exit, aex, sex), v, o.b, o.ex, ab, sb, g.Out)
 					continue
 				}
-				g2 := hx.Goderive(cfg.Goderive, dir, args...)
+				g2 := goderiveRun(cfg, dir, args...)
 				b2, ex2 := read(dir)
 				if g2.Exit != 0 || ex2 != aex || !bytes.Equal(b2, ab) {
 					report("c07-second-run-changes", fmt.Sprintf("version %d, old state %d: a second run changes derived.gen.go (exit %d)", si, oi, g2.Exit), v, o.b, o.ex, b2, sb, g2.Out)
